@@ -663,6 +663,18 @@ def caller_scenarios():
         hx = b.id.decode()
         return (lambda: r.object_store.add_object(b)), [(f".git/objects/{hx[:2]}/{hx[2:]}.lock", f".git/objects/{hx[:2]}/{hx[2:]}")]
     S["object_store.py:add_object[sharedRepository]"] = loose_shared
+
+    def put_named_shared(root):
+        r = _shared_repo(root)
+        r._put_named_file("description", b"first description\n")
+        return (lambda: r._put_named_file("description", b"second, longer description\n" * 3)), [(".git/description.lock", ".git/description")]
+    S["repo.py:Repo._put_named_file[sharedRepository]"] = put_named_shared
+
+    def shallow_shared(root):
+        r = _shared_repo(root)
+        r.update_shallow([A], None)
+        return (lambda: r.update_shallow([B], None)), [(".git/shallow.lock", ".git/shallow")]
+    S["repo.py:Repo.update_shallow[sharedRepository]"] = shallow_shared
     return S
 
 
@@ -844,6 +856,15 @@ def mode_caller_faults(ctx, tid0):
                 run.run()
                 nrun += 1
                 fired = run.world.fault.fired_at
+                if fired and run.sched.results[0].exc:
+                    # the failing call was made ON THE PROTECTED FILE ITSELF (e.g. its mode adjusted after the rename):
+                    # the operation reports failure although it has already replaced the content
+                    for (lockp, tgtp) in run.pairs:
+                        if fired.get("p") == tgtp and fired.get("op") not in ("unlink", "open_r", "stat", "lstat") \
+                                and run.after[tgtp] != run.before[tgtp]:
+                            ctx.violation(f"{name}|FailedKeepsOld|fault={ename}@{fired['op']}:{tgtp} after the replace",
+                                          f"{name}: {ename} at {fired['op']} of {tgtp} itself: the operation failed, yet the file "
+                                          f"already holds the new content", {"site": name, "k": k, "exc": ename})
                 for pair in run.pairs:
                     tid += 1
                     t = run.trace(tid, pair, ref.after[pair[1]], bounds[pair[0]])
@@ -882,6 +903,116 @@ def mode_refused(ctx, tid0):
         ctx.count()
     ctx.log(f"refused operations: {len(refused_scenarios())} scenarios")
     return traces, meta, tid
+
+
+_CLI_CHILD = r'''
+import os, signal, sys
+sys.path.insert(0, sys.argv[1])
+import dulwich.cli as cli
+_open, _fdopen = os.open, os.fdopen
+lockfds = set()
+def open_(path, flags, *a, **k):
+    fd = _open(path, flags, *a, **k)
+    if str(os.fsdecode(path)).endswith(".lock") and (flags & os.O_EXCL):
+        lockfds.add(fd)
+    return fd
+class Interrupting:
+    # the file object of a lock file: Ctrl-C arrives when the command first writes to (or closes) it,
+    # i.e. while it holds the lock and is inside its own try/with block
+    def __init__(self, f):
+        object.__setattr__(self, "_f", f)
+        object.__setattr__(self, "_sent", False)
+    def _hit(self):
+        if not self._sent:
+            object.__setattr__(self, "_sent", True)
+            os.kill(os.getpid(), signal.SIGINT)
+    def write(self, b):
+        self._hit()
+        return self._f.write(b)
+    def flush(self):
+        self._hit()
+        return self._f.flush()
+    def __getattr__(self, n):
+        return getattr(self._f, n)
+    def __setattr__(self, n, v):
+        setattr(self._f, n, v)
+    def __enter__(self):
+        return self
+    def __exit__(self, *a):
+        return self._f.__exit__(*a)
+    def __iter__(self):
+        return iter(self._f)
+def fdopen_(fd, *a, **k):
+    f = _fdopen(fd, *a, **k)
+    if fd in lockfds:
+        lockfds.discard(fd)
+        return Interrupting(f)
+    return f
+os.open, os.fdopen = open_, fdopen_
+os.chdir(sys.argv[2])
+sys.argv = ["dulwich"] + sys.argv[3:]
+cli._main()
+'''
+
+
+def mode_cli_sigint(ctx):
+    """The command-line entry point (python -m dulwich -> cli._main) interrupted by SIGINT at the instant a command has
+    taken a lock: the process may die, but it must unwind -- the protected file keeps its old (or gets its complete new)
+    content and the lock is released, so that the next invocation is not refused."""
+    import subprocess
+    from ..core import REPO
+    from dulwich.repo import Repo
+    n = 0
+    for name, prep, argv, lockrel, tgtrel in [
+        ("add", lambda root: open(os.path.join(root, "f.txt"), "wb").write(b"content\n"), ["add", "f.txt"], ".git/index.lock", ".git/index"),
+        ("branch", lambda root: None, ["branch", "topic"], ".git/refs/heads/topic.lock", ".git/refs/heads/topic"),
+        ("config", lambda root: None, ["config", "user.name", "someone"], ".git/config.lock", ".git/config"),
+        ("update-ref", lambda root: None, ["update-ref", "refs/heads/x", "HEAD"], ".git/refs/heads/x.lock", ".git/refs/heads/x"),
+    ]:
+        root = ctx.tmpdir("c07cli")
+        r = Repo.init(root)
+        r.get_worktree().commit(message=b"c0", committer=b"a <a@b>", author=b"a <a@b>", commit_timestamp=1, commit_timezone=0,
+                                author_timestamp=1, author_timezone=0)
+        r.close()
+        prep(root)
+
+        def rd(rel):
+            try:
+                with open(os.path.join(root, rel), "rb") as f:
+                    return f.read()
+            except FileNotFoundError:
+                return None
+        before = rd(tgtrel)
+        p = subprocess.run(["/venv/bin/python", "-c", _CLI_CHILD, REPO, root] + argv, capture_output=True, text=True, timeout=120,
+                           env=dict(os.environ, PYTHONPATH=REPO))
+        ctx.count()
+        n += 1
+        ctx.nontrivial(("cli-sigint", name))
+        if os.path.exists(os.path.join(root, lockrel)):
+            ctx.violation(f"dulwich/cli.py:_main|ReleasedAtExit|SIGINT while `dulwich {name}` holds {os.path.basename(lockrel)}",
+                          f"`dulwich {' '.join(argv)}` interrupted by SIGINT right after it had created {lockrel} (exit status {p.returncode}): "
+                          f"the lock file is still there, the next invocation is refused", {"cli": name, "argv": argv, "rc": p.returncode})
+        after = rd(tgtrel)
+        if after != before:
+            # completely new content is acceptable only if a fresh process can read the repository
+            try:
+                rr = Repo(root)
+                rr.refs.as_dict()
+                try:
+                    rr.open_index()
+                except Exception as e:
+                    from dulwich.errors import NoIndexPresent
+                    if not isinstance(e, NoIndexPresent):
+                        raise
+                rr.get_config()
+                rr.close()
+            except Exception as e:
+                ctx.violation(f"dulwich/cli.py:_main|AtomicReplace|SIGINT while `dulwich {name}` holds {os.path.basename(lockrel)}",
+                              f"after the interrupted `dulwich {' '.join(argv)}` the repository does not read: {type(e).__name__}: {e}",
+                              {"cli": name, "argv": argv})
+        shutil.rmtree(root, ignore_errors=True)
+    ctx.cov["cli_sigint_cases"] = n
+    ctx.log(f"command line interrupted by SIGINT while holding a lock: {n} commands")
 
 
 # --------------------------------------------------------------------------- mode R: state graph replay
@@ -1257,6 +1388,7 @@ def run(ctx):
     ctx.validated(n)
     binding_controls(ctx, alltr)
     mode_processes(ctx)
+    mode_cli_sigint(ctx)
     ctx.cov["rule"] = ("executions of the real _GitFile / lock-protocol callers: (a) one per TLC state-graph behaviour needed to cover "
                        "every transition, (b) every schedule with a bounded number of preemptions for a menu of writer programs, "
                        "(c) every fault position x error kind; distinct = distinct (scenario, event sequence); all are non-trivial "
